@@ -20,16 +20,18 @@ fn to_mut(b: &Bytes) -> BytesMut {
     BytesMut::from(&b[..])
 }
 
-/// every string of C chars (any Unicode scalar values)
-fn string_rt<const C: usize>() {
-    let mut s = String::new();
-    let mut i = 0;
-    while i < C {
-        let c: char = kani::any();
-        s.push(c);
-        i += 1;
-    }
-    let expect = s.clone();
+/// every string whose UTF-8 encoding is B bytes long (concrete length, symbolic bytes,
+/// validity assumed through std's `from_utf8`)
+fn string_rt<const B: usize>() {
+    let raw: [u8; B] = kani::any();
+    kani::assume(core::str::from_utf8(&raw).is_ok());
+    let s = match String::from_utf8(raw.to_vec()) {
+        Ok(s) => s,
+        Err(e) => {
+            core::mem::forget(e);
+            panic!("unreachable: validity assumed")
+        }
+    };
     let enc = match StringCodec.encode(s) {
         Ok(b) => b,
         Err(e) => {
@@ -37,11 +39,12 @@ fn string_rt<const C: usize>() {
             panic!("encode failed")
         }
     };
-    assert!(same(&enc, expect.as_bytes()), "encoding is the UTF-8 bytes");
+    assert!(same(&enc, &raw), "encoding is the UTF-8 bytes");
     let mut m = to_mut(&enc);
     match StringCodec.decode(&mut m) {
         Ok(d) => {
-            assert!(same(d.as_bytes(), expect.as_bytes()), "decode(encode(s)) == s");
+            assert!(same(d.as_bytes(), &raw), "decode(encode(s)) == s");
+            kani::cover!(B == 0 || raw[0] >= 0x80, "a multi-byte character round-trips");
             core::mem::forget(d);
         }
         Err(e) => {
@@ -49,11 +52,11 @@ fn string_rt<const C: usize>() {
             panic!("decode rejected a valid string")
         }
     }
-    core::mem::forget((enc, expect, m));
+    core::mem::forget((enc, m));
 }
 proof!(c14_string_rt_c0, 8, { string_rt::<0>() });
-proof!(c14_string_rt_c1, 8, { string_rt::<1>() });
-proof!(c14_string_rt_c2, 12, { string_rt::<2>() });
+proof!(c14_string_rt_c1, 8, { string_rt::<2>() });
+proof!(c14_string_rt_c2, 12, { string_rt::<4>() });
 
 /// any B bytes: Ok(s) => s is exactly those bytes (so they were valid UTF-8); invalid
 /// UTF-8 => Err. The UTF-8 oracle is std's `core::str::from_utf8`.
@@ -66,7 +69,7 @@ fn string_any<const B: usize>() {
         Ok(s) => {
             assert!(valid, "invalid UTF-8 is never decoded to a value");
             assert!(same(s.as_bytes(), &raw), "value is exactly the input bytes");
-            kani::cover!(B == 0 || raw[0] >= 0x80, "multi-byte sequence accepted");
+            kani::cover!(B < 2 || raw[0] >= 0x80, "multi-byte sequence accepted");
         }
         Err(_) => {
             assert!(!valid, "valid UTF-8 is accepted");
